@@ -292,6 +292,9 @@ def _check_model(ctx, closure, site, env_outer, slot_names, rules):
         return None
 
     ex = gv.expand(rets[0].value, rets[0], stop=tuple(slot_names or ()) + ("vmin", "vrng", "data_mask", "droplet"))
+    from ..astutil import resolve_closure_aliases
+
+    ex = resolve_closure_aliases(m, closure, ex)
     cv = Converter(resolve_dotted=lambda s: m.resolve(gv.mod, s) or s)
     try:
         e = cv.conv(ex)
@@ -492,9 +495,11 @@ def dtype_layout(ctx, cname):
     chain = [c for c in reversed(m.mro(ci)) if "get_dtype" in c.methods]
     for c in chain:
         fi = c.methods["get_dtype"][0]
+        fv_ = view(m, fi)
         for n in ast.walk(fi.node):
             if isinstance(n, ast.Return) and n.value is not None:
-                lists = [x for x in ast.walk(n.value) if isinstance(x, ast.List)]
+                val_ = fv_.expand(n.value, n) if fv_.node_of(n) is not None else n.value
+                lists = [x for x in ast.walk(val_) if isinstance(x, ast.List)]
                 for l in lists:
                     for e in l.elts:
                         if isinstance(e, ast.Tuple) and e.elts and isinstance(e.elts[0], ast.Constant):
@@ -502,7 +507,9 @@ def dtype_layout(ctx, cname):
                             size = Expr.const(1)
                             if len(e.elts) > 2 and isinstance(e.elts[2], ast.Tuple) and e.elts[2].elts:
                                 sz = U(e.elts[2].elts[0])
-                                size = Expr.atom({"dim": "D", "modes": "M"}.get(sz, sz))
+                                # the per-droplet array fields: one entry per space dimension / per perturbation mode, whatever
+                                # the local that holds the count is called
+                                size = Expr.atom({"position": "D", "amplitudes": "M"}.get(name, {"dim": "D", "modes": "M"}.get(sz, sz)))
                             if name not in [f for f, _ in fields]:
                                 fields.append((name, size))
     return fields
